@@ -38,6 +38,10 @@ pub struct ExpDep {
   /// every import of this key is an asset import (attribute text/bytes/css)
   /// or source phase
   pub all_asset: bool,
+  /// the key is also imported statically by a form that is not a code import
+  /// (`import type`, `export type`, an import type expression): the statement
+  /// says static wins, the implementation lets code imports alone decide
+  pub static_type_import: bool,
 }
 
 impl Default for ExpDep {
@@ -49,6 +53,7 @@ impl Default for ExpDep {
       attr: None,
       deno_types: None,
       all_asset: true,
+      static_type_import: false,
     }
   }
 }
@@ -284,6 +289,7 @@ pub fn parsed_module(world: &World, d: &ModuleDesc, kind: u8) -> ExpModule {
       }
     }
     if ts_type {
+      dep.static_type_import = true;
       if dep.typ.is_none() {
         dep.typ = type_r.clone();
       }
